@@ -63,6 +63,35 @@ pub struct Static {
     pub feature_scenarios: BTreeMap<usize, Vec<String>>,
 }
 
+/// What the runner reads off the first `retry...` tag of one level (scenario, rule or feature):
+/// `Some(after)` if there is such a tag, `after` being its `.after(<n>ns)` part if it has one.
+/// `Err(())`: a delay is given in a form this model does not read.
+fn level_retry_tag(tags: &[String]) -> Option<Result<Option<u64>, ()>> {
+    let rest = tags.iter().find_map(|t| t.strip_prefix("retry"))?;
+    let rest = match rest.strip_prefix('(').and_then(|s| s.split_once(')')) {
+        Some((n, r)) if n.parse::<usize>().is_ok() => r,
+        _ => rest,
+    };
+    Some(match rest.strip_prefix(".after") {
+        None => Ok(None),
+        Some(a) => a.strip_prefix('(').and_then(|a| a.split_once(')')).and_then(|(d, _)| d.strip_suffix("ns")?.parse::<u64>().ok()).map(Some).ok_or(()),
+    })
+}
+
+/// Retry delay of a scenario as the runner resolves it without a `retry_options` closure: the
+/// `.after(..)` of the nearest retry tag (scenario, then rule, then feature), else `--retry-after`,
+/// else the builder's `retry_after`. `None`: not modelled.
+fn resolved_delay(plan: &Plan, scenario_tags: &[String], rule_tags: Option<&[String]>, feature_tags: &[String]) -> Option<Option<u64>> {
+    let fallback = plan.cfg.cli_retry_after_ns.or(plan.cfg.builder_retry_after_ns);
+    let nearest = level_retry_tag(scenario_tags).or_else(|| rule_tags.and_then(level_retry_tag)).or_else(|| level_retry_tag(feature_tags));
+    match nearest {
+        None => Some(fallback),
+        Some(Ok(after)) => Some(after.or(fallback)),
+        Some(Err(())) => None,
+    }
+}
+
+#[allow(dead_code)]
 fn parse_full_retry_tag(tag: &str) -> Option<u64> {
     // retry(N).after(Xns)
     let rest = tag.strip_prefix("retry(")?;
@@ -121,8 +150,12 @@ impl Static {
                     let known_delay = if let Some(map) = &plan.cfg.closure_retry {
                         Some(map.get(&name).and_then(|(_, a)| *a))
                     } else {
-                        // nearest retry tag is on the scenario itself and is fully specified
-                        s.tags.iter().find(|t| t.starts_with("retry")).and_then(|t| parse_full_retry_tag(t)).map(Some)
+                        // (the expanded scenario's own tags include those of its Examples block)
+                        let mut own: Vec<String> = s.tags.clone();
+                        if s.examples.is_some() {
+                            own.extend(s.examples_tags.iter().cloned());
+                        }
+                        resolved_delay(plan, &own, rule.map(|r| r.tags.as_slice()), &f.tags)
                     };
                     n_sc += 1;
                     n_steps += s.steps.len();
